@@ -37,6 +37,26 @@ Proof.
     destruct IH as [_ [S|S]]; unfold dep_mark; rewrite S; [discriminate|]. rewrite Hc. discriminate.
 Qed.
 
+(* Converse (containment): in a run that ends without a stop, a step is canceled only if one of its dependencies is
+   blocking, and skipped with its own precondition met only then - nothing outside the downstream set is cut. *)
+Theorem cut_only_downstream s : Reach c s -> quiet s -> pc s = LDone -> forall i, i < nsteps c ->
+  (st (nd s i) = NCancel \/ (st (nd s i) = NSkipped /\ pre (steps c i) = true)) -> blocked c s i = true.
+Proof.
+  intros R Q D i Hi H.
+  destruct (blocked c s i) eqn:B; [reflexivity|exfalso].
+  destruct (final_states c Hnorep s R Q D i Hi) as [_ [F2 [F3 [F4 F5]]]].
+  destruct (pre (steps c i)) eqn:P.
+  - destruct (dry c) eqn:Dr.
+    + destruct (F3 B eq_refl eq_refl) as [_ S]. rewrite S in H. destruct H as [H|[H _]]; discriminate.
+    + destruct (sfail (steps c i)) eqn:Sf.
+      * destruct (F4 B eq_refl eq_refl eq_refl) as [_ S]. rewrite S in H. destruct H as [H|[H _]]; discriminate.
+      * destruct (F5 B eq_refl eq_refl eq_refl) as [last [fs [_ [_ [_ [_ [Ht Hf]]]]]]].
+        destruct last.
+        -- rewrite (Ht eq_refl) in H. destruct H as [H|[H _]]; discriminate.
+        -- destruct (Hf eq_refl) as [S _]. rewrite S in H. destruct H as [H|[H _]]; discriminate.
+  - destruct (F2 B eq_refl) as [_ S]. rewrite S in H. destruct H as [H|[_ H]]; discriminate.
+Qed.
+
 End Down.
 
 (* Non-vacuity: a -> b -> c, a fails (no retry): c is reached from the blocking step a through b (two edges), the run ends
